@@ -34,6 +34,7 @@ import (
 	"golang.org/x/crypto/bcrypt"
 
 	"github.com/tinode/chat/server/auth"
+	"github.com/tinode/chat/server/media"
 	"github.com/tinode/chat/server/store"
 	"github.com/tinode/chat/server/store/types"
 	mem "github.com/tinode/chat/server/zzverifmem"
@@ -68,8 +69,75 @@ func c16ProcessInit() {
 			panic(err)
 		}
 		c16PassHash = h
+		store.RegisterMediaHandler(c16RedirName, c16Redir)
 	})
 }
+
+// ---------------------------------------------------------------- a media handler which redirects downloads
+
+// c16RedirHandler is the second media handler of the harness ("vredir"): the files live where the
+// real fs handler puts them (every method is delegated to it), but downloads are answered the way
+// the s3 handler answers them: Headers() tells the endpoint to stop with 307 and the Location of a
+// "pre-signed" url of the file. The location is a secret of the file: whoever learns it can fetch
+// the bytes without talking to the server again.
+type c16RedirHandler struct {
+	inner media.Handler // the process-wide fs handler, configured by mediaOn
+}
+
+const (
+	c16RedirName = "vredir"
+	c16RedirBase = "https://c16-bucket.example/"
+	c16RedirSig  = "?X-Verif-Signature=c16presigned"
+)
+
+var c16Redir = &c16RedirHandler{}
+
+// c16RedirLocation is the Location the handler hands out for an upload.
+func c16RedirLocation(fid types.Uid) string { return c16RedirBase + fid.String32() + c16RedirSig }
+
+// Init: the inner handler has been configured by the caller (the same configuration text).
+func (h *c16RedirHandler) Init(jsconf string) error {
+	if h.inner == nil {
+		return fmt.Errorf("c16: %s has no fs handler to delegate to", c16RedirName)
+	}
+	return h.inner.Init(jsconf)
+}
+
+func (h *c16RedirHandler) Headers(req *http.Request, serve bool) (http.Header, int, error) {
+	headers, status, err := h.inner.Headers(req, serve)
+	if err != nil || status != 0 || !serve || (req.Method != http.MethodGet && req.Method != http.MethodHead) {
+		// preflight, upload, or a method which is not a download
+		return headers, status, err
+	}
+	fid := h.GetIdFromUrl(req.URL.String())
+	if fid.IsZero() {
+		return nil, 0, types.ErrNotFound
+	}
+	fd, err := store.Files.Get(fid.String())
+	if err != nil {
+		return nil, 0, err
+	}
+	if fd == nil || fd.Status != types.UploadCompleted {
+		return nil, 0, types.ErrNotFound
+	}
+	return http.Header{
+		"Location":      {c16RedirLocation(fid)},
+		"Content-Type":  {"application/json; charset=utf-8"},
+		"Cache-Control": {"no-cache, no-store, must-revalidate"},
+	}, http.StatusTemporaryRedirect, nil
+}
+
+func (h *c16RedirHandler) Upload(fdef *types.FileDef, file io.ReadSeeker) (string, int64, error) {
+	return h.inner.Upload(fdef, file)
+}
+
+func (h *c16RedirHandler) Download(url string) (*types.FileDef, media.ReadSeekCloser, error) {
+	return h.inner.Download(url)
+}
+
+func (h *c16RedirHandler) Delete(locations []string) error { return h.inner.Delete(locations) }
+
+func (h *c16RedirHandler) GetIdFromUrl(url string) types.Uid { return h.inner.GetIdFromUrl(url) }
 
 // c16InitAuth initialises the token and basic authenticators (idempotent).
 func c16InitAuth() {
@@ -238,6 +306,8 @@ type c16Env struct {
 	sessLive *Session
 	sessNone *Session
 	marker   []byte // content of root/secret.txt, must never be served
+	mediaCfg string // configuration text of the media handler
+	redirect bool   // the configured handler is "vredir"
 }
 
 const (
@@ -304,7 +374,8 @@ func (e *c16Env) mediaOn(serveURL string, maxSize int64, gcPeriod time.Duration)
 		e.serveURL = serveURL
 	}
 	b, _ := json.Marshal(cfg)
-	if err := store.Store.UseMediaHandler("fs", string(b)); err != nil {
+	e.mediaCfg, e.redirect = string(b), false
+	if err := store.Store.UseMediaHandler("fs", e.mediaCfg); err != nil {
 		panic(err)
 	}
 	globals.apiKeySalt = c16Salt
@@ -313,7 +384,25 @@ func (e *c16Env) mediaOn(serveURL string, maxSize int64, gcPeriod time.Duration)
 	globals.useXForwardedFor = false
 }
 
+// useRedirect switches the configured media handler from fs to the redirecting one (same
+// directory, same serve url). mediaOn must have been called.
+func (e *c16Env) useRedirect() {
+	c16Redir.inner = store.Store.GetMediaHandler()
+	if c16Redir.inner == media.Handler(c16Redir) {
+		panic("c16: useRedirect called twice")
+	}
+	if err := store.Store.UseMediaHandler(c16RedirName, e.mediaCfg); err != nil {
+		panic(err)
+	}
+	e.redirect = true
+}
+
 func (e *c16Env) close() {
+	if e.redirect {
+		// the handler is process-wide: leave the stock one behind
+		store.Store.UseMediaHandler("fs", e.mediaCfg)
+		e.redirect = false
+	}
 	if e.sessLive != nil {
 		globals.sessionStore.Delete(e.sessLive)
 	}
